@@ -13,7 +13,18 @@ SPECDIR = os.path.join(vlib.SPEC, 'ingest')
 
 
 def tlc_cases(tier):
-    cfg = 'MC_Chunker_quick.cfg' if tier == 'quick' else 'MC_Chunker_thorough.cfg'
+    if tier != 'quick':
+        # 3 streams without the label-set classes (MC_Chunker_thorough.cfg) + 2 streams with them (MC_Chunker_quick.cfg)
+        c1, m1 = tlc_cases_cfg('MC_Chunker_thorough.cfg')
+        c2, m2 = tlc_cases_cfg('MC_Chunker_quick.cfg')
+        have = set(json.dumps(c, sort_keys=True) for c in c1)
+        c1 += [c for c in c2 if json.dumps(c, sort_keys=True) not in have]
+        return c1, {'states': m1['states'] + m2['states'], 'transitions': m1['transitions'] + m2['transitions'],
+                    'cfg': m1['cfg'] + '+' + m2['cfg'], 'wall_s': round(m1['wall_s'] + m2['wall_s'], 1)}
+    return tlc_cases_cfg('MC_Chunker_quick.cfg')
+
+
+def tlc_cases_cfg(cfg):
     res = vlib.tlc(SPECDIR, 'MC_Chunker.tla', cfg, timeout=1500)
     try:
         if res['violated']:
@@ -40,9 +51,22 @@ def tlc_candidates():
         vlib.tlc_cleanup(res)
 
 
+def tlc_leak():
+    """The label-set part of Faithful has teeth: with the named deviation family LeakLabels (label state of a container
+    survives from one callback to the next) TLC must find Faithful violated on the bodies with a pseudo label / a mixed container."""
+    res = vlib.tlc(SPECDIR, 'MC_Chunker.tla', 'MC_Chunker_leak.cfg', timeout=600)
+    try:
+        if 'Invariant Faithful is violated' not in res['out']:
+            raise vlib.Infra('Chunker.tla with LeakLabels = TRUE does not violate Faithful: the own-label-set part of the invariant is vacuous: ' + res['out'][-1500:])
+        return {'LeakLabels_violates_Faithful': True}
+    finally:
+        vlib.tlc_cleanup(res)
+
+
 def run(tier):
     cases, mc = tlc_cases(tier)
     cand = tlc_candidates()
+    cand.update(tlc_leak())
     binp = vlib.go_build('cmd/c03', 'c03')
     sd = vlib.scratch('c03')
     try:
@@ -75,7 +99,11 @@ def run(tier):
                'traces_validated_against_impl': out['runs'],
                'samples': [cases[len(cases) // 2], {'per_protocol': out['per_protocol']}],
                'exhaustive': True, 'model_check': mc, 'mechanism_candidates': cand,
-               'replay': {'cases_from_tlc': len(cases), 'parser_runs': out['runs'], 'classes': out['classes'], 'signature_counts': out['signature_counts']}}
+               'replay': {'cases_from_tlc': len(cases), 'parser_runs': out['runs'], 'classes': out['classes'], 'label_classes': out.get('label_classes'), 'signature_counts': out['signature_counts']}}
+        lc = out.get('label_classes') or {}
+        for need in ('influx-metrics/pseudo-label+mixed-container', 'otlp-logs/mixed-container', 'prom-remote-write/pseudo-label', 'loki-json-values/pseudo-label'):
+            if not lc.get(need):
+                raise vlib.Infra('vacuous: no body of label class %s was replayed' % need)
         if tier == 'thorough':
             # the ingest protocols beyond this property's list (Elasticsearch bulk/doc, Cloudflare, Datadog metrics by route) are
             # checked with the same oracle style by the extra check X04 (BulkIngest.tla); it belongs to this property's deep tier
@@ -89,6 +117,7 @@ def run(tier):
             cov['traces_validated_against_impl'] += xr['coverage'].get('traces_validated_against_impl', 0)
         return {'level': 'model_checking', 'coverage': cov, 'violations': viols,
                 'assumptions': ['thresholds scaled: 3 points in the model = 1000 in the code, 4 size units = 1 MiB',
+                                'the retention pseudo label __ttl_days__ is not part of the stream (no TTL_DAYS request context): a stream gets the same fingerprint with and without it; reference fingerprint of a label set = the one it gets when one entry of it is sent alone through the same parser',
                                 'label names/values in this check are benign (hostile labels are C04\'s subject)',
                                 'Loki values layout with a numeric third element is a sample of both kinds (type 0) by the project\'s own convention']}
     finally:
